@@ -258,14 +258,23 @@ static uint64_t get_next_mclk_timestamp(void)
     return mclk_timestamp;
 }
 
-static uint64_t mclk_lookup(uint32_t avtp_time)
+/* Search the media clock for the timestamp that matches 'avtp_time'. The
+ * search is limited to one second worth of media clock periods: a
+ * presentation time that is not a media clock timestamp at all (e.g. AAF
+ * packets received before the first CRF packet, or a corrupted timestamp)
+ * would otherwise never be found.
+ */
+static bool mclk_lookup(uint32_t avtp_time, uint64_t *mclk_timestamp)
 {
-    uint64_t mclk_timestamp = get_next_mclk_timestamp();
+    unsigned int i;
 
-    while (mclk_timestamp % (1ULL << 32) != avtp_time)
-        mclk_timestamp = get_next_mclk_timestamp();
+    for (i = 0; i < NSEC_PER_SEC / MCLK_PERIOD; i++) {
+        *mclk_timestamp = get_next_mclk_timestamp();
+        if (*mclk_timestamp % (1ULL << 32) == avtp_time)
+            return true;
+    }
 
-    return mclk_timestamp;
+    return false;
 }
 
 static bool is_valid_crf_pdu(struct avtp_crf_pdu *pdu)
@@ -699,7 +708,7 @@ static int handle_aaf_pdu(struct avtp_stream_pdu *pdu)
 {
     int res;
     bool state;
-    uint64_t val;
+    uint64_t val, mclk_timestamp;
     uint32_t avtp_time, mclk_time;
 
     if (!is_valid_aaf_pdu(pdu))
@@ -713,7 +722,11 @@ static int handle_aaf_pdu(struct avtp_stream_pdu *pdu)
     avtp_time = val;
 
     if (need_mclk_lookup) {
-        mclk_time = mclk_lookup(avtp_time);
+        if (!mclk_lookup(avtp_time, &mclk_timestamp)) {
+            /* Not found: try again with the next AAF packet. */
+            return 0;
+        }
+        mclk_time = mclk_timestamp;
         need_mclk_lookup = false;
     } else {
         mclk_time = get_next_mclk_timestamp();
